@@ -95,7 +95,7 @@ func VerifH_C10_b() {
 	}
 	vAssume(old.elements < 65535) // uint16 element counter: 65536 accumulations in one tranche are outside the claim
 
-	deleted, oldData, key, _, _, err := AddNewLock(st, batch, owner, miner, newDelegate, sender, lockupByte, unlockHeight, epoch, value, vLoc, logrus.New(), common.Hash{}, true)
+	deleted, oldData, key, oldHash, newHash, err := AddNewLock(st, batch, owner, miner, newDelegate, sender, lockupByte, unlockHeight, epoch, value, vLoc, logrus.New(), common.Hash{}, true)
 	vReach("returned")
 	_, data := batch.GetPending(rawdb.CoinbaseLockupKey(owner, miner, lockupByte, epoch))
 	if err != nil {
@@ -111,6 +111,14 @@ func VerifH_C10_b() {
 	got := decodeLockRec(data, vLoc)
 	vAssert("lock/balance-accumulates", got.balance.Cmp(new(big.Int).Add(old.balance, value)) == 0)
 	vAssert("lock/delegate-updated", got.delegate.Equal(newDelegate))
+	// the two hashes feed the UTXO-set multiset (removed / added): they must describe exactly the
+	// record that was stored before and the record that is stored now (C06)
+	vAssert("commit/new-hash-is-stored-record", newHash == stubLockupHash(owner, miner, got.delegate, lockupByte, epoch, got.balance, got.tranche, got.elements))
+	if old.exists {
+		vAssert("commit/old-hash-is-previous-record", oldHash == stubLockupHash(owner, miner, old.delegate, lockupByte, epoch, old.balance, old.tranche, old.elements))
+	} else {
+		vAssert("commit/old-hash-zero-when-created", oldHash == (common.Hash{}))
+	}
 	if old.exists {
 		vFact("pre", "record-exists")
 		vAssert("lock/elements-plus-one", got.elements == old.elements+1)
